@@ -198,6 +198,16 @@ C03_StoredAsSent(s, r, o, A, c) ==
         [] r.kind = "sannounce" -> \E e \in SeqToSet(A.sp) : e[1] = r.t /\ e[2] >= 1
         [] OTHER -> TRUE
 
+\* "stores (and later serves)": what a getpeers / getspeers answer serves is exactly what the acknowledged announces recorded -
+\* per announcing node id the sender's own IP with the explicit or implied port of its LAST accepted announce
+C03_ServesWhatWasRecorded(s, r, o, A, c) ==
+   /\ (r.kind = "getpeers" /\ c.allow) =>
+        IF Has(s.peers, r.t) /\ Len(Lookup(s.peers, r.t).ps) > 0
+        THEN o.kind = "peers" /\ o.peers = PeerSet(Lookup(s.peers, r.t).ps) ELSE o.kind = "novalues"
+   /\ (r.kind = "getspeers" /\ c.allow) =>
+        IF Has(s.sp, r.t) /\ Len(Lookup(s.sp, r.t).ps) > 0
+        THEN o.kind = "speers" /\ o.peers = SPeerSet(Lookup(s.sp, r.t).ps) ELSE o.kind = "novalues"
+
 \* --- C04
 C04_SeqMonotone(s, r, o, A, c) ==
    \A e \in SeqToSet(c.B.mut) : MutSeqOf(A, e[1]) # None => MutSeqOf(A, e[1]) >= e[2]
@@ -244,14 +254,14 @@ C20_Caps(s, A) ==
    /\ \A i \in 1..Len(A.peers) : A.peers[i][2] <= s.caps.peers
    /\ \A i \in 1..Len(A.sp) : A.sp[i][2] <= s.caps.peers
 
-L1Names == <<"C03_OnlyValidWrites", "C03_ReplyClass", "C03_AcceptValid", "C03_Filtered", "C03_StoredAsSent",
+L1Names == <<"C03_OnlyValidWrites", "C03_ReplyClass", "C03_AcceptValid", "C03_Filtered", "C03_StoredAsSent", "C03_ServesWhatWasRecorded",
              "C04_SeqMonotone", "C04_Cas301", "C04_Seq302", "C04_ExactCode", "C04_AcceptHigherOrSame",
              "C04_GetReturnsLast", "C04_GetPeersReturnsStored",
              "C15_BoundToIp", "C15_TwoSecrets", "C15_GetsIssueTokens", "C20_Caps">>
 L1Eval(s, r, o, A) ==
   LET c == Ctx(s, r, o, A) IN
   <<C03_OnlyValidWrites(s, r, o, A, c), C03_ReplyClass(s, r, o, A, c), C03_AcceptValid(s, r, o, A, c),
-    C03_Filtered(s, r, o, A, c), C03_StoredAsSent(s, r, o, A, c),
+    C03_Filtered(s, r, o, A, c), C03_StoredAsSent(s, r, o, A, c), C03_ServesWhatWasRecorded(s, r, o, A, c),
     C04_SeqMonotone(s, r, o, A, c), C04_Cas301(s, r, o, A, c), C04_Seq302(s, r, o, A, c), C04_ExactCode(s, r, o, A, c),
     C04_AcceptHigherOrSame(s, r, o, A, c), C04_GetReturnsLast(s, r, o, A, c), C04_GetPeersReturnsStored(s, r, o, A, c),
     C15_BoundToIp(s, r, o, A, c), C15_TwoSecrets(s, r, o, A, c), C15_GetsIssueTokens(s, r, o, A, c),
